@@ -100,6 +100,22 @@ def kernels():
         "  cbn [orb]; eexists; (split; [reflexivity|]); cbv [borigin bsize vlist vx vy vz app]; list_eq ltac:(lra). Qed." % PS,
         imports=IMPORTS))
 
+    # a second decided order: every coordinate strictly descending along the rows
+    ks.append(Kernel(
+        "from_points_descending", {"p": [[3.0, 6.0, 0.5], [2.0, 5.0, -1.0], [1.0, 4.0, -2.0]]},
+        lambda p: (Box.from_points(p).origin, Box.from_points(p).size),
+        "Lemma {T}_ok : forall {vars} : R, {T}_path ROps {vars} ->\n"
+        "  exists b, from_points ROps %s = Ok b /\\ vlist (borigin b) ++ vlist (bsize b) = {T} ROps {vars}.\n"
+        "Proof. intros {vars} Hpath. unfold {T}_path in Hpath; rops. path_facts Hpath. unfold {T}.\n"
+        "  cbv [from_points points_min points_max fold_left vmin vmax nmin nmax box_ctor vsub vx vy vz n0]; rops.\n"
+        "  repeat match goal with |- context [Rleb ?a ?b] =>\n"
+        "    lazymatch a with context [if _ then _ else _] => fail | _ => idtac end;\n"
+        "    lazymatch b with context [if _ then _ else _] => fail | _ => idtac end;\n"
+        "    destruct (Rleb_spec a b); try (exfalso; lra) end;\n"
+        "  repeat match goal with |- context [Rltb ?a ?b] => destruct (Rltb_spec a b); try (exfalso; lra) end;\n"
+        "  cbn [orb]; eexists; (split; [reflexivity|]); cbv [borigin bsize vlist vx vy vz app]; list_eq ltac:(lra). Qed." % PS,
+        imports=IMPORTS))
+
     # extent on three symbolic points: the decided pair is (0, 1)
     ks.append(Kernel(
         "extent_three", {"p": [[0.0, 0.0, 0.0], [4.0, 3.0, 0.0], [1.0, 1.0, 1.0]]},
@@ -112,6 +128,18 @@ def kernels():
         "  eexists; split; [reflexivity|]. list_eq ltac:(first [reflexivity | (f_equal; ring)]). Qed." % PS,
         imports=IMPORTS,
         expect_structure={"tuple": ["e", 0, 1]}))
+    # extent with a tie inside np.argmax (probe 0 is equally far from both others) and a later, strictly larger pair (1, 2)
+    ks.append(Kernel(
+        "extent_tie", {"p": [[0.0, 0.0, 0.0], [4.0, 3.0, 0.0], [-4.0, -3.0, 0.0]]},
+        lambda p: extent(p, ret_indices=True),
+        "Lemma {T}_ok : forall {vars} : R, {T}_path ROps {vars} ->\n"
+        "  exists d, extent ROps %s = Ok (d, 1%%Z, 2%%Z) /\\ [d] = {T} ROps {vars}.\n"
+        "Proof. intros {vars} Hpath. unfold {T}_path in Hpath; rops. path_facts Hpath. unfold {T}.\n"
+        "  cbv [extent ext_loop ext_step distances map argmax argmax_from vdist vnorm vnorm2 vdot vsub vx vy vz]; rops.\n"
+        "  repeat (match goal with |- context [Rltb ?a ?b] => destruct (Rltb_spec a b); try (exfalso; lra) end; cbv beta iota).\n"
+        "  eexists; split; [reflexivity|]. list_eq ltac:(first [reflexivity | (f_equal; ring)]). Qed." % PS,
+        imports=IMPORTS,
+        expect_structure={"tuple": ["e", 1, 2]}, perturb=0.0))
     # percentile on three symbolic points and a symbolic axis (coordinates along the axis in increasing order), for two
     # percentiles whose virtual index is dyadic (so NumPy's float index arithmetic is exact): q = 25 -> index 1/2
     # (NumPy's upper-half form b - (b-a)(1-t)), q = 12.5 -> index 1/4 (lower-half form a + (b-a)t)
@@ -297,7 +325,7 @@ def gen_cases(rng, n, tier):
                 ax = [0.0, 0.0, 0.0]
                 for j in range(3):
                     if rng.random() < 0.6:
-                        ax[j] = rng.choice([1e-9, -1e-9, 2.0 ** -30, 2.0 ** -27, -2.0 ** -40, 5e-9])
+                        ax[j] = rng.choice([1e-9, -1e-9, 2.0 ** -30, 2.0 ** -27, -2.0 ** -40, 5e-9, 1e-8, -1e-8])
                 if not any(ax):
                     ax[rng.randrange(3)] = 1e-9
                 cases.append({"kind": "percentile_tiny_axis", "points": pts, "axis": ax, "q": float(rng.choice([0, 50, 100, 37]))})
@@ -311,8 +339,14 @@ def gen_cases(rng, n, tier):
                     ax = grid_vec(rng)
                     if any(ax):
                         break
-                if rng.random() < 0.15:
+                v = rng.random()
+                if v < 0.15:
                     ax = [x * 2.0 ** -20 for x in ax]
+                elif v < 0.3:
+                    # just above vg.almost_zero's threshold: one component a hair (one ulp, 2x, 10x) above 1e-8, the others
+                    # at or below it -- must be accepted (the threshold itself, 1e-8, is in the tiny-axis stream)
+                    ax = [rng.choice([0.0, 1e-8, -1e-9]) for _ in range(3)]
+                    ax[rng.randrange(3)] = rng.choice([1, -1]) * rng.choice([1.0000000000000002e-8, 2e-8, 1e-7])
                 qq = rng.choice([0.0, 100.0, 50.0, 25.0, 75.0, float(rng.randint(0, 100)), rng.randint(0, 800) / 8])
                 cases.append({"kind": "percentile", "points": pts, "axis": ax, "q": qq})
         if is_int and cases[-1]["kind"] in INT_KINDS:
@@ -494,7 +528,7 @@ def _from_points_oracle(c, o):
         return "argument array was modified"
     ps = [_F(p) for p in c["points"]]
     og, sz = _F(o["origin"]), _F(o["size"])
-    mag = max([1] + [abs(x) for p in ps for x in p])
+    mag = max([abs(x) for p in ps for x in p])  # relative to the data, no floor at 1
     for j in range(3):
         lo, hi = min(p[j] for p in ps), max(p[j] for p in ps)
         if og[j] != lo:
@@ -612,7 +646,10 @@ def oracle(c, o):
 def classify(c, o, failure, disagrees):
     # known finding: vg.almost_zero's absolute threshold (1e-8) rejects genuine axes; matched on the call site, the input
     # class (non-zero axis with every |component| <= 1e-8) and the observed ValueError
+    if disagrees:
+        return None  # a model/implementation disagreement is never a known finding
     if (c["kind"] == "percentile_tiny_axis" and isinstance(o, dict) and o.get("raise") == "ValueError"
+            and str(o.get("msg", "")).startswith("Axis must be non-zero")
             and any(c["axis"]) and all(abs(x) <= 1e-8 for x in c["axis"])):
         return "percentile_tiny_axis_rejected"
     return None
